@@ -125,13 +125,15 @@ Definition export_amp (o : aout) : ain :=
        (Some (Qred (o_voa o))) (Some (Qred (o_invoa o))).
 
 (* ---------- fibres and fused: to_json / reload ---------- *)
-(* Fiber.to_json: length [km] and loss_coef [dB/km] rounded to 6 decimals; att_in, con_in, con_out as is;
-   lumped_losses are not exported (finding F19).  reload converts back to m and dB/m. *)
+(* Fiber.to_json: length [km] and loss_coef [dB/km] rounded to 6 decimals; att_in, con_in, con_out and the
+   lumped losses (position, loss) as they are (lumped_losses exported since gnpy fix 562b868b; before: finding F19).
+   reload converts back to m and dB/m. *)
+Definition qred2 (pl : Q * Q) : Q * Q := (Qred (fst pl), Qred (snd pl)).
 Definition export_fib (f : fib) : fib :=
   mkFib (f_name f) (f_raman f)
         (Qred (round_dec 6 (f_len f / inject_Z 1000) * inject_Z 1000))
         (Qred (round_dec 6 (f_lc f * inject_Z 1000) / inject_Z 1000))
-        (oqred (f_cin f)) (oqred (f_cout f)) (Qred (f_att f)) [].
+        (oqred (f_cin f)) (oqred (f_cout f)) (Qred (f_att f)) (map qred2 (f_lumped f)).
 Definition export_el (e : elem) : elem :=
   match e with
   | Fib f => Fib (export_fib f)
@@ -139,6 +141,12 @@ Definition export_el (e : elem) : elem :=
   | Amp a => Amp (mkAmp (a_name a) (a_multi a) false (a_var a) (a_gain a) (a_dp a) (a_voa a))
   end.
 Definition export_els (l : list elem) : list elem := map export_el l.
+
+(* Roadm.to_json / reload of the node-level design bands: exported whenever there is at least one (gnpy fix 37844749;
+   before, a single band was dropped: finding F8); a ROADM loaded without design_bands gets the SI bands at design *)
+Definition export_bands {A} (bands : list A) : option (list A) := match bands with [] => None | _ => Some bands end.
+Definition reload_bands {A} (si : list A) (o : option (list A)) : list A :=
+  match o with Some b => b | None => si end.
 
 (* one export / reload / redesign round of the fibre side of a line (uids of inserted amplifiers are ordinary
    uids after a reload) *)
